@@ -183,6 +183,7 @@ pub fn special_clocks(quick: bool) -> Vec<(&'static str, i64, u32)> {
     ("feb-28-2027-end", at(2027, 2, 28, 23, 59, 57), 0),
     ("2038-rollover-minus", at(2038, 1, 19, 3, 14, 5), 250_000_000),
     ("zero-nanoseconds", at(2031, 7, 1, 12, 0, 0), 0),
+    ("frozen-mid-second", at(2029, 5, 17, 8, 30, 15), 123_456_789),
   ];
   if !quick {
     v.extend([
@@ -193,6 +194,8 @@ pub fn special_clocks(quick: bool) -> Vec<(&'static str, i64, u32)> {
       ("epoch-plus-2-years", at(1972, 2, 29, 23, 59, 59), 0),
       ("midnight-exactly", at(2030, 1, 1, 0, 0, 0), 0),
       ("month-end-30", at(2029, 4, 30, 23, 59, 59), 999_999_999),
+      ("frozen-on-the-second", at(2033, 3, 3, 3, 3, 3), 0),
+      ("frozen-at-last-nanosecond", at(2027, 12, 31, 23, 59, 59), 999_999_999),
     ]);
   }
   v
